@@ -83,17 +83,30 @@ def run_routes(ctx):
 
 
 def run_change_detection(ctx):
+    """the preserve-or-reset decision = the guards under which reload records a stream in ReloadReport.state_preserved; the
+    guard that looks at the streams' `operations` must look at more than their length (found by role, not by local name)"""
     fn = E + "::reload"
     b = ctx.need_body(fn, rule="change-detection")
-    ls = b.locals_named("ops_changed")
-    if not ls:
-        ctx.anchor_lost("change-detection", "local `ops_changed` not found in reload (unrecognised shape)")
+    pushes = [(bb, t) for bb, t in b.calls() if t["callee"].endswith("::push") and t["args"] and b.desc(t["args"][0]).endswith("state_preserved")]
+    if not pushes:
+        ctx.anchor_lost("change-detection", "reload never records a stream in ReloadReport.state_preserved (unrecognised shape)")
         return
-    o = Slicer(b).origins(ls, through_calls="none")
-    calls = {c for c in o.call_names()}
+    bb, t = pushes[0]
+    ops_guards = []
+    for g in b.guards_of(bb):
+        discr = b.term(g["sw"])["discr"]
+        wide = Slicer(b).origins([discr], through_calls="all")
+        if not any(f[1] == "operations" for f in wide.fields):
+            continue
+        narrow = Slicer(b).origins([discr], through_calls="none")
+        ops_guards.append((g, {c for c in narrow.call_names()}))
+    if not ops_guards:
+        ctx.violation("change-detection", "ops_changed", "reload preserves a stream's state without looking at its operations at all", site=t["sp"])
+        return
+    calls = set().union(*[c for _, c in ops_guards])
     only_len = calls and all(c.endswith("::len") for c in calls)
     if only_len:
-        ctx.violation("change-detection", "ops_changed", "reload decides whether a stream's operations changed from `operations.len()` alone: an edit that keeps the number of operations (changed threshold, window size, filter) is reported as state_preserved and the old operators keep running", site=b.js["span"])
+        ctx.violation("change-detection", "ops_changed", "reload decides whether a stream's operations changed from `operations.len()` alone: an edit that keeps the number of operations (changed threshold, window size, filter) is reported as state_preserved and the old operators keep running", site=b.term(ops_guards[0][0]["sw"])["sp"] if "sp" in b.term(ops_guards[0][0]["sw"]) else b.js["span"])
     else:
         ctx.ok("change-detection", "ops_changed", "depends on %s" % sorted(calls)[:4])
 
